@@ -59,6 +59,7 @@ def shard(task):
         y = np.array((f,) + rest, dtype=np.float64)[:, None]
         feas = np.isfinite(y.flatten())
         yf = y.flatten()
+        shared = task.setdefault('_shared', {})
         for wname in names:
           factory, kind = ws[wname]
           n += 1
@@ -72,6 +73,19 @@ def shard(task):
             if kind.startswith('pre-fit'):
               V('raises', wname, y, None, repr(e)[:100])
             continue
+          # a designer keeps ONE warper and feeds it its growing history: the long-lived object (it has seen every earlier array
+          # of this shard) must answer exactly like the fresh one
+          if 'outliers' not in wname and wname != 'TransformToGaussian':
+            try:
+              if wname not in shared:
+                shared[wname] = factory()
+              w2 = np.asarray(shared[wname].warp(y.copy()))
+              if w2.shape != w.shape or not np.array_equal(w2, w, equal_nan=True):
+                V('result-depends-on-earlier-calls', wname, y, w, 'the same warper object, after other arrays, gives %s' % w2.flatten().tolist())
+                shared.pop(wname, None)
+            except Exception as e:  # pylint: disable=broad-except
+              V('result-depends-on-earlier-calls', wname, y, w, 'the reused warper object raises %r' % (e,))
+              shared.pop(wname, None)
           # input not modified (bit pattern incl. NaN positions)
           if not (np.array_equal(np.isnan(y_in), np.isnan(y)) and np.array_equal(y_in[~np.isnan(y)], y[~np.isnan(y)])):
             V('input-mutated', wname, y, w)
